@@ -226,7 +226,9 @@ func (m *observerManager) RemoveObserver(o *Observer) {
 	}
 	delete(m.indices, o.id)
 
-	observers := m.observers[o.event]
+	// Work on a copy, as a dispatch loop may currently be iterating over the slice
+	// (an observer can be un-registered from inside an observer callback).
+	observers := append([]*observerData(nil), m.observers[o.event]...)
 	observers[idx].id = maxObserverID
 
 	last := uint32(len(observers) - 1)
